@@ -536,7 +536,7 @@ int usim_fault(int kind) { return fault(kind) ? 1 : 0; }
 void usim_fault_rate(int kind, unsigned per_mille) {
   if (kind >= 0 && kind < USIM_F_COUNT) R.fault_rate[kind] = per_mille;
 }
-void usim_alloc_fault_window(int on) { R.alloc_window = on; }
+void usim_alloc_fault_window(int on) { if (tl_self) tl_self->alloc_window = on; }  // per calling thread
 
 void usim_probe(const char* name) {
   for (size_t i = 0; i < R.probes.size(); ++i)
